@@ -32,6 +32,7 @@ type Opts struct {
 	YearLo, YearHi int // date range (default 0..9999 boundary-biased)
 	PlainLayout   bool // LF, final newline, single blank separators
 	Should        int  // 0 sometimes, 1 never, 2 always
+	Short         bool // short summaries (small texts for boundary sweeps)
 }
 
 // LineKind classifies a physical line of a generated document.
@@ -96,6 +97,9 @@ func word(r *core.Rand, o *Opts, out *Out) string {
 }
 
 func phrase(r *core.Rand, o *Opts, out *Out, minWords, maxWords int) string {
+	if o.Short && maxWords > 2 {
+		maxWords = 2
+	}
 	n := r.Range(minWords, maxWords)
 	ws := make([]string, 0, n)
 	for i := 0; i < n; i++ {
